@@ -450,7 +450,10 @@ static Bytes c07_payload(Rng &rng, int &kind) {
     return b;
 }
 
-static const char *C07_CODINGS[] = {"gzip", "x-gzip", "deflate-raw", "deflate-zlib", "lzma", "gzip,gzip", "deflate,deflate", "gzip-labelled-deflate", "deflate-labelled-gzip", "plain-labelled-gzip", "plain-labelled-deflate"};
+static const char *C07_CODINGS[] = {"gzip", "x-gzip", "deflate-raw", "deflate-zlib", "lzma", "gzip,gzip", "deflate,deflate", "gzip-labelled-deflate", "deflate-labelled-gzip", "plain-labelled-gzip", "plain-labelled-deflate",
+                                     // mixed two-layer lists: in the order libhtp undoes them (first token = outermost coding), in the order the RFC lists them
+                                     // (applied order; rescued by the restart logic), and as two header lines that are merged
+                                     "gzip,deflate", "deflate,gzip.rfc-order", "gzip+deflate.two-lines"};
 static const int C07_NCOD = (int) (sizeof C07_CODINGS / sizeof *C07_CODINGS);
 
 static void c07_plan(Rng &rng, Plan &p, uint64_t variant) {
@@ -473,6 +476,9 @@ static void c07_plan(Rng &rng, Plan &p, uint64_t variant) {
     else if (cname == "lzma") { body = lzma_alone_encode(payload, 1u << 16); ce = "lzma"; if (payload.size() > 100000) payload.resize(100000), body = lzma_alone_encode(payload, 1u << 16); }
     else if (cname == "gzip,gzip") { body = z_encode(z_encode(payload, 31, level, 0), 31, level, 0); ce = rng.coin() ? "gzip, gzip" : "gzip,gzip"; }
     else if (cname == "deflate,deflate") { body = z_encode(z_encode(payload, -15, level, 0), -15, level, 0); ce = "deflate, deflate"; }
+    else if (cname == "gzip,deflate") { body = z_encode(z_encode(payload, -15, level, 0), 31, level, 0); ce = rng.coin() ? "gzip, deflate" : "GZIP,x-deflate"; }
+    else if (cname == "deflate,gzip.rfc-order") { body = z_encode(z_encode(payload, -15, level, 0), 31, level, 0); ce = "deflate, gzip"; }
+    else if (cname == "gzip+deflate.two-lines") { body = z_encode(z_encode(payload, -15, level, 0), 31, level, 0); ce = std::string("gzip") + (char) 1 + "deflate"; }   // split into two header lines below
     else if (cname == "gzip-labelled-deflate") { body = z_encode(payload, 31, level, 0); ce = "deflate"; }
     else if (cname == "deflate-labelled-gzip") { body = z_encode(payload, -15, level, 0); ce = "gzip"; }
     else { // plain text announced as compressed: must be passed through, not lost
@@ -492,11 +498,12 @@ static void c07_plan(Rng &rng, Plan &p, uint64_t variant) {
     MsgSpec q; q.method = "GET"; q.target = "/id0/c07"; { HeaderSpec h; h.name = "Host"; h.value = "c07.example"; q.headers.push_back(h); }
     MsgSpec r; r.is_request = false; r.status = 200; r.reason = "OK";
     // request bodies are decompressed too when the configuration asks for it (one coding, no lists): a quarter of the single-coding runs
-    bool req_side = ce.find(',') == std::string::npos && rng.chance(1, 4);
+    bool req_side = ce.find(',') == std::string::npos && ce.find('\x01') == std::string::npos && rng.chance(1, 4);
     p.cfg.set("c07_side", req_side ? 0 : 1);
     if (req_side) { p.cfg.set("req_decomp", 1); q.method = "POST"; r.framing = FR_CL; { HeaderSpec h; h.name = "Content-Length"; h.value = "0"; r.headers.push_back(h); } }
     MsgSpec &m = req_side ? q : r;
-    { HeaderSpec h; h.name = rng.coin() ? "Content-Encoding" : "content-encoding"; h.value = ce; m.headers.push_back(h); }
+    if (ce.find('\x01') != std::string::npos) { size_t at = ce.find('\x01'); HeaderSpec h1; h1.name = "Content-Encoding"; h1.value = ce.substr(0, at); m.headers.push_back(h1); HeaderSpec h2; h2.name = rng.coin() ? "Content-Encoding" : "content-encoding"; h2.value = ce.substr(at + 1); m.headers.push_back(h2); }
+    else { HeaderSpec h; h.name = rng.coin() ? "Content-Encoding" : "content-encoding"; h.value = ce; m.headers.push_back(h); }
     { HeaderSpec h; h.name = "X-Sim-Id"; h.value = "0"; r.headers.push_back(h); }
     m.body = body; m.payload = payload;
     int fr = (int) rng.below(req_side ? 2 : 3);
